@@ -22,7 +22,7 @@ CFGS = {
     "quick": ["MC_paths_u3.cfg", "MC_paths_loops.cfg"],
     "thorough": ["MC_paths_u3.cfg", "MC_paths_u3t4.cfg", "MC_paths_d3.cfg", "MC_paths_loops.cfg", "MC_paths_sparse4.cfg"],
 }
-PLABS = ["int", "zero", "str", "neg", "big", "under", "tuple", "mixed", "npt"]
+PLABS = ["int", "zero", "str", "neg", "big", "under", "tuple", "mixed", "npt", "cross0"]
 
 
 def _graphs(chk, cfg):
